@@ -83,9 +83,13 @@ for _v, _t in (('default', 'None'), ('given', 'IdGen')):
                              'step(result, result.q0, N1.epsilon) == {N1.q0, N2.q0}',
                              'all(implies(b != N1.epsilon, step(result, result.q0, b) == set_empty()) for b in atoms())',
                              'all((y in step(result, q, b)) == (%s) for q in N1.Q for b in atoms() for y in atoms())' % _step_from('N1'),
-                             'all((y in step(result, q, b)) == (%s) for q in N2.Q for b in atoms() for y in atoms())' % _step_from('N2')],
-             types={'delta': DT}, theories=[], props=['C18', 'C19', 'C06'], modifies=['id_generator'],
-             note='structural contract (exact transition relation of the textbook construction, epsilon moves of the second operand relabelled); L(result) is compared exactly by the bounded stand-in')
+                             'all((y in step(result, q, b)) == (%s) for q in N2.Q for b in atoms() for y in atoms())' % _step_from('N2'),
+                             'union_struct(N1, N2, result)',
+                             # the property itself, over words: the language is the union of the operand languages
+                             'all(implies(over(result.Sigma, w), nfa_accepts(result, w) == ((over(N1.Sigma, w) and nfa_accepts(N1, w)) or (over(N2.Sigma, w) and nfa_accepts(N2, w)))) for w in allwords())'],
+             asserts=['nfa_wf(result)', 'union_struct(N1, N2, result)'],
+             types={'delta': DT}, theories=['word', 'nfa', 'nfax'], props=['C18', 'C19', 'C06'], modifies=['id_generator'],
+             note='exact transition relation of the textbook construction (epsilon moves of the second operand relabelled); the language statement follows by lemma union-sim (runs from a set of states, embedding of each operand, word induction)')
     contract(M, 'nfa_repetition', {'N': 'NFA', 'id_generator': _t}, returns='NFA', variant=_v, defaults={'id_generator': 'None'},
              requires=['nfa_wf(N)'],
              ensures=['nfa_wf(result)', 'result.epsilon == N.epsilon', 'result.q0 not in N.Q', 'result.Q == N.Q | {result.q0}', 'result.Sigma == N.Sigma', 'result.F == N.F | {result.q0}',
@@ -101,8 +105,15 @@ contract(M, 'nfa_concatenation', {'N1': 'NFA', 'N2': 'NFA'}, returns='NFA',
          requires=['nfa_wf(N1)', 'nfa_wf(N2)', 'N1.Q.isdisjoint(N2.Q)', 'N1.epsilon not in N2.Sigma'],
          ensures=_OPS + ['result.q0 == N1.q0', 'result.Q == N1.Q | N2.Q', 'result.Sigma == N1.Sigma | N2.Sigma', 'result.F == N2.F',
                          'all((y in step(result, q, b)) == ((%s) or (b == N1.epsilon and q in N1.F and y == N2.q0)) for q in N1.Q for b in atoms() for y in atoms())' % _step_from('N1'),
-                         'all((y in step(result, q, b)) == (%s) for q in N2.Q for b in atoms() for y in atoms())' % _step_from('N2')],
+                         'all((y in step(result, q, b)) == (%s) for q in N2.Q for b in atoms() for y in atoms())' % _step_from('N2'),
+                         'cat_struct(N1, N2, result)',
+                         # the property itself, over words: w is accepted iff it splits into a word of L(N1) followed by a word of L(N2)
+                         # (nfa_lang(N, u): u is over N.Sigma and N accepts u; nfa_acc is nfa_accepts under an opaque name)
+                         'all(implies(over(result.Sigma, w), nfa_acc(result, w) == any(0 <= k and k <= wlen(w) and nfa_lang(N1, take(k, w)) and nfa_lang(N2, drop(k, w)) for k in ints())) for w in allwords())',
+                         'all(nfa_acc(result, w) == nfa_accepts(result, w) for w in allwords())'],
+         asserts=['nfa_wf(result)', 'cat_struct(N1, N2, result)'],
          types={'delta': DT}, loops={1: {'ghost': 'doneF', 'invariant': [
              'all((y in lookup(delta, (q, b))) == ((q in N1.Q and (%s)) or (q in N2.Q and (%s)) or (b == N1.epsilon and q in doneF and y == N2.q0)) for q in atoms() for b in atoms() for y in atoms())' % (_step_from('N1'), _step_from('N2')),
              'all(implies((q, b) in delta, q in Q and (b in Sigma or b == N1.epsilon)) for q in atoms() for b in atoms())', 'Q == N1.Q | N2.Q', 'Sigma == N1.Sigma | N2.Sigma']}},
-         theories=[], props=['C18', 'C19', 'C06'], note='structural contract; language compared exactly by the bounded stand-in')
+         theories=['word', 'wordx', 'nfa', 'nfax'], props=['C18', 'C19', 'C06'],
+         note='exact transition relation; the language statement follows by lemmas cat-eclo (closure across the bridge), cat-sim (states after reading w, word induction), Bcat-char (split positions) and cat-lang')
